@@ -27,6 +27,7 @@ def scripts(tier, r):
                 else:
                     ops.append(pk)
                 nl = 1 + (i % 3)
+                if i % 4 == 3: ops = ["RXDENY"] + ops        # under a policy that refuses execute-without-write protection requests (the library needs none)
                 lts = [ops] + [list(sk)] * (nl - 1)
                 out.append((f"s{i} r0,r1,r2,r3,r4,r5,b0,fk0,fk1,fk2,fk3 " + "|".join(",".join(o) if o else "-" for o in lts), lts))
                 i += 1
@@ -36,7 +37,7 @@ def scripts(tier, r):
 
 def run(res, tier, seed, replay):
     res.cov["rule"] = ("real, fault enumeration: 15 script skeletons (three of them fake one function twice and leave an expectation unmet, so that the verification panic is raised inside the injector's drop) x every position x 8 kinds of panic (user panic; refused signature; null pointer; refused boolean; mprotect failing at install via the interposer; a fake rejecting its arguments; "
-                       "an over-called fake; 'Failed to allocate JIT memory' via an always-failing mmap) x 0-3 pending satisfied/unsatisfied call-count expectations, 1-3 lifetimes, each in a forked child; observed: catch_unwind result and message class, "
+                       "an over-called fake; 'Failed to allocate JIT memory' via an always-failing mmap) x 0-3 pending satisfied/unsatisfied call-count expectations, 1-3 lifetimes, one script in four under an environment policy that refuses execute-without-write protection requests, each in a forked child; observed: catch_unwind result and message class, "
                        "number of panics (panic hook), exit status (SIGABRT/SIGSEGV), bytes/behaviour of all targets after unwinding, a fresh thread creating an injector within 3 s; the extracted model runs the same script on the observed kernel answers; "
                        "distinct = distinct (lifetimes, op-kind set, repeated-target flag)")
     res.cov["trusted_base"] = vlib.TRUSTED_COMMON + ["model of Rust unwinding (drop of locals in reverse order, thread::panicking) in Injector.scope_exit / drop_verifs", "harness/real interposers, panic hook and fork isolation"]
